@@ -260,6 +260,10 @@ func (f *file) WriteAt(p []byte, off int64) (n int, err error) {
 }
 
 func (f *file) WriteBlobAt(p blob.Blob, off int64) (n int, err error) {
+	if f.flag&hackpadfs.FlagAppend != 0 {
+		// like os.File: WriteAt is invalid on a file opened with O_APPEND
+		return 0, &hackpadfs.PathError{Op: "writeat", Path: f.path, Err: hackpadfs.ErrInvalid}
+	}
 	return f.writeBlobAt("writeat", p, off)
 }
 
